@@ -365,8 +365,10 @@ func verifC19Compile() {
 						want = []string{[]string{"2001:db8::1", "2001:db8::2"}[i]}
 					}
 					wantMatched, wantMode, found = true, sh.mode, true
-				case !add4 && !add6: // empty rule: deny / no-op for every allowed family
+				case !sh.ext4 && !sh.ext6: // an EMPTY external list: deny / no-op for every allowed family
 					want, wantMatched, wantMode, found = nil, true, sh.mode, true
+					// (a rule whose externals all belong to a family its Networks
+					// exclude has nothing to say about the allowed family: inert)
 				}
 				if found {
 					break
